@@ -18,7 +18,8 @@ LEVEL = 'fault_enumeration'
 RULE = ('Hypothesis-generated histories (<= 50 ops) of write / read / read_block / save / clean restart / crash(stage) with stage in the 7 fs-level '
         'crash points of write_head (and "no save in progress"); in addition an exhaustive part enumerates, for a fixed small history, every '
         '(save index x crash stage) pair. Non-trivial = >= 1 crash landed strictly inside a save (between its first and last fs operation) '
-        'after >= 1 record had been read since the previous save. Distinct = distinct history.')
+        'after >= 1 record had been read since the previous save. Distinct = distinct history.'
+        ' Crash stages also include death right before / after the n-th directory operation (rename, replace, unlink, remove, link) of a save.')
 ASSUMPTIONS = ['rename is atomic (POSIX); a crash loses at most what was not yet closed/renamed; fs faults are crashes and retention/external deletions only',
                'one model clock for rolllog.time and rolllog.datetime.now, strictly increasing (restart with the clock behind the newest file is refused by design)']
 BUDGET = {'quick': 45, 'thorough': 900}
